@@ -6,6 +6,18 @@ TECH = "runtime monitoring: post-conditions / lock-step reference models / offli
 
 # id -> (category, technique, level text, level note, design ref)
 CLAIMED = {
+ "C07": ("exploration", "lock-step differential run: real Solver + Lightning Trainer vs a plain PyTorch reference loop built from the same spec; probes on condition calls (iteration index, once per step), optimizer membership by an own attribute walk, state snapshots around validation",
+         "Held on K generated training worlds (1-4 weighted conditions, shared/separate models, inverse-problem Parameters, adaptive weights, SGD/Adam/AdamW/RMSprop/Adagrad, schedulers, validation, multi-epoch): after every step the learnable and optimizer state equal the reference loop (observed difference exactly 0), every reachable learnable tensor is optimised, adaptive weights ascend, validation never changes state.",
+         "Individual condition losses are taken from the library's condition objects (C04's subject); deterministic samplers; CPU; no gradient accumulation / clipping.", "DESIGN.md 4 C07"),
+ "C12": ("exploration", "lock-step model-based monitor: random operation histories executed on the real Points/Space objects and on an independent reference table (ordered (name, dim) list + float64 array), full observable state compared after every operation",
+         "Held on K operation histories (construction, all index forms the API accepts for 1-3 batch axes, assignment, join, row concatenation, repeat, unsqueeze, arithmetic, equality, Space products / sub-space tests / slicing): tensor, coordinates, ordered space and sizes equal the reference; rejected index forms leave the object unchanged. One known finding recorded (advanced row index combined with several columns).",
+         "Reference table self-validated per case; index expressions with more than one advanced component are not generated (torch broadcasting would be the specification).", "DESIGN.md 4 C12"),
+ "C13": ("exploration", "recording user functions + wrapper-history monitor: bindings compared with Python's own inspect.signature semantics, immutable reference of every wrapper's state across call / partially_evaluate / set_default / deepcopy / re-wrap histories",
+         "Held on K generated signatures (0-6 positional-or-keyword parameters, defaults incl. mutable and tensor defaults) and argument supersets as dict and Points: every parameter receives the value stored under its name, defaults apply, missing required names are rejected, partial evaluation returns the value exactly when all required names are bound and otherwise a wrapper equivalent to one full evaluation; originals, user functions and user containers unchanged.",
+         "Keyword-only / variadic parameters outside the quantifier; re-wrapping shares the defaults dict (DESIGN 5.1) and is accepted either way.", "DESIGN.md 4 C13"),
+ "C19": ("fault_enumeration", "crash-point enumeration: a harness Lightning callback raises SimulatedCrash at every step k, a fresh world resumes from the checkpoint file on disk and trains on; WeightSaveCallback files loaded into freshly built models",
+         "Held for EVERY interruption step k in 1..N-1 for N in 3..5 (quick) / 3..8 (thorough) and check interval c in {1,2,3}, per configuration: resumed state == uninterrupted state (difference exactly 0), every reachable learnable tensor is in every checkpoint, _init/_final files reproduce the model before/after training, _min_loss equals a checked step. The (k, N, c) space per configuration is enumerated completely.",
+         "Torn / partially written checkpoint files are not simulated (the crash is raised between Lightning hooks); CPU only.", "DESIGN.md 4 C19"),
  "C03": ("exploration", "post-condition monitor on every differential operator call: sympy analytic derivative of the generated expression (cross-checked at run time by 4th-order finite differences), row-independence metamorphic monitor",
          "Held on K operator calls over generated expression trees (constant / linear / bilinear / generic dependence templates), 1-3 variables of dimension 1-3, one and two batch axes, both precisions: values, shape, dtype equal the analytic expression row by row; permuting / dropping / replacing other rows never changes a row.",
          "sympy + numpy float64 as reference (disagreement between the two references makes a case inconclusive, never a violation); documented shape restrictions of jac/rot/convective/sym_grad/matrix_div respected.", "DESIGN.md 4 C03"),
